@@ -37,6 +37,8 @@ pub struct Plan {
     pub snapshots: bool,
     /// only calls of these kinds are counted (empty = all)
     pub kinds: Vec<&'static str>,
+    /// environment deviation: the k-th counted call, if it is a write, accepts at most this many bytes
+    pub short: Vec<(usize, usize)>,
 }
 
 pub struct Session {
@@ -96,6 +98,8 @@ fn set_errno(e: i32) {
 }
 
 enum Decision {
+    /// counted write that the kernel only partly accepts
+    Short(usize),
     /// not counted: just do the real thing
     Pass,
     /// counted: do the real thing, then record
@@ -141,7 +145,10 @@ fn decide(op: &'static str, a: &str, b: &str, len: usize, fd: Option<c_int>) -> 
         s.calls.push(Call { k, op, a: rel(a), b: rel(b), len, failed });
         match failed {
             Some(e) => Decision::Fail(e),
-            None => Decision::Go(k),
+            None => match s.plan.short.iter().find(|(sk, _)| *sk == k) {
+                Some((_, max)) if op == "write" => Decision::Short(*max),
+                _ => Decision::Go(k),
+            },
         }
     })
         .unwrap_or(Decision::Pass)
@@ -226,9 +233,13 @@ pub unsafe extern "C" fn close(fd: c_int) -> c_int {
 
 #[no_mangle]
 pub unsafe extern "C" fn write(fd: c_int, buf: *const c_void, count: size_t) -> ssize_t {
-    if let Decision::Fail(e) = decide("write", "", "", count, Some(fd)) {
-        set_errno(e);
-        return -1;
+    match decide("write", "", "", count, Some(fd)) {
+        Decision::Fail(e) => {
+            set_errno(e);
+            return -1;
+        }
+        Decision::Short(max) => return libc::syscall(libc::SYS_write, fd, buf, count.min(max.max(1))) as ssize_t,
+        _ => {}
     }
     libc::syscall(libc::SYS_write, fd, buf, count) as ssize_t
 }
@@ -384,7 +395,7 @@ pub fn call_str(c: &Call) -> String {
 pub fn self_test() -> Result<(), String> {
     let sb = super::sandbox::Sandbox::new();
     std::fs::write(sb.path("a"), b"x").unwrap();
-    begin(&sb.dir, Plan { fail: vec![(0, libc::EIO)], snapshots: true, kinds: vec![] });
+    begin(&sb.dir, Plan { fail: vec![(0, libc::EIO)], snapshots: true, kinds: vec![], short: vec![] });
     arm();
     let r = std::fs::rename(sb.path("a"), sb.path("b"));
     let r2 = std::fs::rename(sb.path("a"), sb.path("c"));
